@@ -65,6 +65,35 @@ func AddressingCorpus() []*Scenario {
 			}
 		}
 	}
+	// inbox: five and more locally owned recipients - four (six) owned collections and then an owned value that
+	// is not a collection (a local actor / a local note), in to / cc / audience order
+	for _, nColl := range []int{4, 5, 6, 9} {
+		nColl := nColl
+		var cl L
+		for i := 0; i < nColl; i++ {
+			cl = append(cl, fmt.Sprintf("https://l.example/c/many%d", i))
+		}
+		more := func(a *ap.App) {
+			for i := 0; i < nColl; i++ {
+				id := fmt.Sprintf("https://l.example/c/many%d", i)
+				if i%2 == 0 {
+					a.PutDoc(Doc("Collection", id, "items", L{Carol}))
+				} else {
+					a.PutDoc(Doc("OrderedCollection", id, "orderedItems", L{Dave, Erin}))
+				}
+			}
+		}
+		for vi, tail := range []struct {
+			prop string
+			v    interface{}
+		}{{"cc", Bob}, {"audience", Note1}, {"cc", L{Bob, Carol}}} {
+			d := Doc("Create", RAct, "actor", Carol, "to", cl, "object", rnote)
+			d[tail.prop] = tail.v
+			s = append(s, &Scenario{Name: fmt.Sprintf("addr/forward-%d-owned-collections-then-owned-value-%d", nColl, vi), Kind: ap.Both, Entry: "PostInbox", URL: inbox(Alice), Body: d, Tweak: more})
+		}
+		d := Doc("Create", RAct, "actor", Carol, "to", append(L{Bob}, cl...), "object", rnote)
+		s = append(s, &Scenario{Name: fmt.Sprintf("addr/forward-owned-value-then-%d-owned-collections", nColl), Kind: ap.Both, Entry: "PostInbox", URL: inbox(Alice), Body: d, Tweak: more})
+	}
 	// inbox: an owned collection that is also the reply value examined by the forwarding search
 	for _, link := range []string{"object", "target", "tag", "inReplyTo"} {
 		for _, c := range colls {
